@@ -916,6 +916,62 @@ func (d *Driver) judgeC09() {
 			}
 		}
 	}
+	// DeleteKey by an instance that was not (yet) leader when the call came, but whose acquisition
+	// wrote the record while the call was under way and was told so before the call returned: the
+	// instance is the record's owner, the call succeeded, the record must be gone.
+	for _, a := range d.h.Apis {
+		if a.Kind != AStopCtx || !a.Act.DeleteKey || a.TRet < 0 || a.Err != nil || a.WasLeaderAtInv || a.SRet >= d.endStep {
+			continue
+		}
+		in := d.inst(a.Inst)
+		alone, restarted := true, false
+		for _, b := range d.h.Apis {
+			if b != a && b.Inst == a.Inst && b.Gen == a.Gen && (b.Kind == AStop || b.Kind == AStopCtx) && b.SInv <= a.SRet && (b.TRet < 0 || b.SRet >= a.SInv) {
+				alone = false
+			}
+			if b.Inst == a.Inst && b.Gen == a.Gen && (b.Kind == AStart || b.Kind == ARestart) && b.SInv >= a.SInv && b.SInv <= a.SRet {
+				restarted = true
+			}
+		}
+		if !alone || restarted || in == nil {
+			continue
+		}
+		// (as for a leader's shutdown: not if the deletion was hit by a fault, or the call's own
+		// deadline had passed before it got to the deletion)
+		to := stopBudget(a.Act)
+		issued, faulted := false, false
+		for _, op := range d.h.Ops {
+			if op.Inst == a.Inst && op.Gen == a.Gen && op.Kind == "delete" && op.SInvoke >= a.SInv && op.SInvoke <= a.SRet {
+				issued = true
+				if op.Fault != "" || !op.Applied || op.TRet < 0 || op.TRet > a.TInv+to-time.Millisecond {
+					faulted = true
+				}
+			}
+		}
+		if faulted || (!issued && a.TRet >= a.TInv+to-time.Millisecond) {
+			continue
+		}
+		for _, op := range d.h.Ops {
+			if op.Inst != a.Inst || op.Gen != a.Gen || op.New == nil || !op.OK || (op.Kind != "create" && op.Kind != "update") {
+				continue
+			}
+			// written by an operation that was in flight when the call came, acknowledged (in time)
+			// before the call returned
+			if op.SInvoke > a.SInv || op.TRet < 0 || op.SRet > a.SRet || op.Err != nil || op.Fault != "" {
+				continue
+			}
+			if op.SRet < a.SInv {
+				continue
+			}
+			v := op.New
+			e, _ := v.EndAt(d.store.MaxAge)
+			if e >= 0 && e <= a.TRet {
+				continue
+			}
+			d.judgedInc("C09")
+			d.h.violate("C09", "deletekey-own-record-left-behind/"+callerSig(op.Caller), fmt.Sprintf("i%d: its %s (#%d) wrote the record seq=%d at %v and was acknowledged at %v, inside a StopWithContext(DeleteKey) call [%v,%v] that returned success: the instance owns the record and it is still live", a.Inst, op.Kind, op.ID, v.Seq, op.TApply, op.TRet, a.TInv, a.TRet), a.TRet, a.SRet)
+		}
+	}
 	// leftover library goroutines once everything in flight has returned
 	if len(d.leftover) > 0 {
 		cnt := map[string]int{}
